@@ -328,6 +328,14 @@ pub fn check_output(t: &TaskCtx, out: &str, st: &mut Stats) -> Vec<(String, Stri
             }
         }
     }
+    if t.oracles & O_LIT != 0 {
+        *st.oracle_evals.entry("literals").or_insert(0) += 1;
+        let lits = |v: &Vec<String>| v.iter().filter(|s| s.starts_with("s:") || s.starts_with("n:")).cloned().collect::<Vec<_>>();
+        let (a, b) = (lits(&t.input.tok), lits(&oi.tok));
+        if a != b {
+            f.push(("literal-value".into(), format!("literal values differ {}", first_diff(&a, &b))));
+        }
+    }
     crate::props::check_output_more(t, out, &oi, st, &mut f);
     f
 }
